@@ -13,7 +13,7 @@ RULE = ('generated float models (1-3 signatures) and their quantized versions un
         'dequantisation, own metric, mean over samples) -- every declared common tensor exactly once, in the right group, with the right '
         'value; model vs. itself must report 0; metric axioms on random arrays incl. NaN/inf.  A unit is one (model pair, metric, '
         'signature); distinct by digest; non-trivial iff the target model contains >=1 quantized tensor')
-ASSUMPTIONS = ['"tensor of the model" = tensor declared in the flatbuffer subgraph; interpreter scratch tensors are only checked for "filed at most once"',
+ASSUMPTIONS = ['16-bit activation recipes excluded (their interpreter aborts are C01/C13 findings)', '"tensor of the model" = tensor declared in the flatbuffer subgraph; interpreter scratch tensors are only checked for "filed at most once"',
                'test inputs of quantized model inputs are on the quantization grid with |q| <= 127',
                'value tolerance rel 1e-4 + abs 1e-9']
 TT = models.TT
@@ -195,7 +195,8 @@ def run_case(ctx, case, rng):
   # --- quantized versions
   k = case % 3
   if k == 0:
-    name = list(recipes.SHIPPED)[(case // 3) % len(recipes.SHIPPED)]
+    ship = [n for n in recipes.SHIPPED if 'a16' not in n]
+    name = ship[(case // 3) % len(ship)]
     rules = recipes.SHIPPED_AS_RULES[name]
   else:
     pool = [c for c in recipes.GOOD if not c.startswith('srq16')]
@@ -231,12 +232,12 @@ def run_case(ctx, case, rng):
           ctx.count('quantized_dtype:' + str(t.type))
     if ctx.sample is None:
       ctx.sample = dict(d, signatures=len(spec.signatures), quantized_tensors=n_q)
-  ctx.risky('interp.validate', go, {'rules': run.accepted})
+  ctx.risky('interp.validate', go, common.risky_info(run, spec, datasets, {'rules': run.accepted}))
   return {}
 
 
-def crash_to_violation(open_call, crash):
-  return None
+from vf.props import c01
+crash_to_violation = c01.crash_to_violation
 
 
 def summarize(agg):
